@@ -212,6 +212,26 @@ def field_fault(rng, cont, stored, content):
             v = 0
         hc = (world.xxh32(desc) >> 8) & 0xFF
         return stored[:4] + desc + bytes([hc]) + rest, {"field": "lz4." + how, "value": v, "descriptor_checksum": "recomputed", "plain_len": R}
+    if cont == "xz" and len(stored) > 32 and stored[-2:] == b"YZ" and rng.random() < 0.4:
+        # block header (at 12): [size][flags][filter id][props size][LZMA2 dictionary size] ... [CRC32], CRC recomputed
+        b = bytearray(stored)
+        hs = (b[12] + 1) * 4
+        how = rng.choice(("dict_size", "dict_size", "flags", "filter_id", "props_size", "stream_flags"))
+        if how == "dict_size":
+            b[16] = rng.choice((40, 41, 63, 255, 39, 0))
+        elif how == "flags":
+            b[13] = rng.choice((0x03, 0x40, 0x80, 0xC0, 0x3C))
+        elif how == "filter_id":
+            b[14] = rng.choice((0x00, 0x03, 0x04, 0x20, 0x22, 0x7F))
+        elif how == "props_size":
+            b[15] = rng.choice((0, 2, 5, 0x7F))
+        else:
+            b[7] = rng.choice((0x02, 0x03, 0x05, 0x0F, 0x10))
+            b[8:12] = struct.pack("<I", zlib.crc32(bytes(b[6:8])) & 0xFFFFFFFF)
+            b[-4:-2] = b[6:8]
+            b[-12:-8] = struct.pack("<I", zlib.crc32(bytes(b[-8:-2])) & 0xFFFFFFFF)
+        b[12 + hs - 4:12 + hs] = struct.pack("<I", zlib.crc32(bytes(b[12:12 + hs - 4])) & 0xFFFFFFFF)
+        return bytes(b), {"field": "xz.block_header." + how, "crc": "recomputed", "plain_len": R}
     if cont == "xz" and len(stored) > 32 and stored[-2:] == b"YZ":
         # rebuild index + footer with another uncompressed / unpadded size for the (single) block
         bsz = (struct.unpack("<I", stored[-8:-4])[0] + 1) * 4
@@ -511,6 +531,7 @@ def sweep_case(rng, j, tier):
 
 
 def run_case(seed, i, tier):
+    core.ADDRESS_SPACE_LIMIT = 3 << 30       # an allocation of gigabytes (a damaged length field taken at its word) aborts the run
     rng = core.rng_for(seed, PROP, i)
     cr = CaseResult()
     if i % 8 == 7:
@@ -553,6 +574,7 @@ def run_case(seed, i, tier):
 
 
 def classes_of(rp):
+    core.ADDRESS_SPACE_LIMIT = 3 << 30
     scn = core.Scenario.from_json(rp["scenario"])
     plan = core.Plan.from_json(rp["plan"])
     res = core.execute(scn, plan)
